@@ -278,6 +278,7 @@ def oracle_content(case, impl):
                 tgt, g = int(a[0]), int(a[1])
                 n = S[g].clone()
                 n.num = st["num"]
+                n._note()          # truncation to a smaller num is an eviction
                 S[tgt] = n
             elif o in ("plus",):
                 tgt, h, g = int(a[0]), int(a[1]), int(a[2])
